@@ -5,6 +5,7 @@ import XmppVerif.Drv.Recv
 import XmppVerif.Drv.Neg
 import XmppVerif.Drv.C06
 import XmppVerif.Drv.C07
+import XmppVerif.Drv.C08
 import XmppVerif.Drv.C10
 import XmppVerif.Drv.C13
 import XmppVerif.Drv.C14
@@ -31,6 +32,7 @@ def handlers : List (String × Handler) := [
   ("C12", XmppVerif.Drv.Recv.handlerC12),
   ("C06", XmppVerif.Drv.C06.handler),
   ("C07", XmppVerif.Drv.C07.handler),
+  ("C08", XmppVerif.Drv.C08.handler),
   ("C10", XmppVerif.Drv.C10.handler),
   ("C13", XmppVerif.Drv.C13.handler),
   ("C14", XmppVerif.Drv.C14.handler),
